@@ -51,6 +51,7 @@ func (k Keeper) handleBridgeHook(ctx sdk.Context, data []byte, hookMaxGas uint64
 
 	// use cache context from here to avoid resetting sequencer number on failure
 	cacheCtx, commit := ctx.CacheContext()
+	events := sdk.EmptyEvents()
 	for _, msg := range tx.GetMsgs() {
 		handler := k.router.Handler(msg)
 		if handler == nil {
@@ -58,15 +59,22 @@ func (k Keeper) handleBridgeHook(ctx sdk.Context, data []byte, hookMaxGas uint64
 			return
 		}
 
-		_, err = handler(cacheCtx, msg)
+		var res *sdk.Result
+		res, err = handler(cacheCtx, msg)
 		if err != nil {
 			reason = fmt.Sprintf("Failed to execute Msg: %s", err)
 			return
 		}
+
+		events = append(events, res.GetEvents()...)
 	}
 
 	commit()
 	success = true
+
+	// the router hands the events of each message back in its result; emit them only
+	// when the hook is committed (e.g. initiate_token_withdrawal of a hook message)
+	ctx.EventManager().EmitEvents(events)
 
 	return
 }
